@@ -21,7 +21,6 @@ import (
 	"bufio"
 	"bytes"
 	"crypto/sha256"
-	"encoding/hex"
 	"fmt"
 	"os"
 	"os/exec"
@@ -55,7 +54,7 @@ func c08Child(mode string) {
 	desync.Digest = desync.SHA256{}
 	dir := os.Getenv("VH_C08_DIR")
 	unc := os.Getenv("VH_C08_UNC") == "1"
-	data, _ := hex.DecodeString(os.Getenv("VH_C08_DATA"))
+	data, _ := os.ReadFile(os.Getenv("VH_C08_DATAFILE"))
 	if os.Getenv("VH_C08_IGNXFSZ") == "1" {
 		signal.Ignore(syscall.SIGXFSZ)
 	}
@@ -270,8 +269,12 @@ func c08RunChild(a vh.Args, c *c08Case, dir, inject, log string) (exit string, e
 	}
 	args = append(args, self)
 	cmd := exec.Command("strace", args...)
+	dataFile := filepath.Join(a.Work, "c08-data.bin")
+	if err := os.WriteFile(dataFile, vh.UnHex(c.DataHex), 0644); err != nil {
+		return "", err
+	}
 	cmd.Env = append(os.Environ(), "VH_C08_CHILD=store", "VH_C08_DIR="+dir, "VH_C08_UNC="+b01(c.Unc),
-		"VH_C08_DATA="+hex.EncodeToString(vh.UnHex(c.DataHex)), "GOMAXPROCS=2", "GOGC=off",
+		"VH_C08_DATAFILE="+dataFile, "GOMAXPROCS=2", "GOGC=off",
 		"VH_C08_WRITERS="+strconv.Itoa(c.Writers))
 	if c.Kind == "store-fsize" {
 		cmd.Env = append(cmd.Env, "VH_C08_FSIZE="+strconv.Itoa(c.Fsize), "VH_C08_IGNXFSZ="+b01(c.IgnXfsz))
